@@ -90,54 +90,56 @@ def translate_c_to_qulacs(source_circuit, noise_model=None, save_measurements=Fa
 
     # Maps the gate information properly. Different for each backend (order, values)
     for gate in source_circuit._gates:
-        if gate.name == 'CNOT' and len(gate.control) > 1:
-            gate.name = 'CX'
-        if gate.name in {"H", "X", "Y", "Z", "S", "T"}:
-            (GATE_QULACS[gate.name])(target_circuit, gate.target[0])
-        elif gate.name in {"CH", "CX", "CY", "CZ"}:
-            mat_gate = qulacs.gate.to_matrix_gate(GATE_QULACS[gate.name](gate.target[0]))
+        # Name used for dispatch: a multi-controlled CNOT is translated as a CX (the source gate is left untouched)
+        gate_name = gate.name
+        if gate_name == 'CNOT' and len(gate.control) > 1:
+            gate_name = 'CX'
+        if gate_name in {"H", "X", "Y", "Z", "S", "T"}:
+            (GATE_QULACS[gate_name])(target_circuit, gate.target[0])
+        elif gate_name in {"CH", "CX", "CY", "CZ"}:
+            mat_gate = qulacs.gate.to_matrix_gate(GATE_QULACS[gate_name](gate.target[0]))
             for c in gate.control:
                 mat_gate.add_control_qubit(c, 1)
             target_circuit.add_gate(mat_gate)
-        elif gate.name in {"RX", "RY", "RZ"}:
-            (GATE_QULACS[gate.name])(target_circuit, gate.target[0], -1. * gate.parameter)
-        elif gate.name in {"CRX", "CRY", "CRZ"}:
-            mat_gate = qulacs.gate.to_matrix_gate(GATE_QULACS[gate.name](gate.target[0], -1. * gate.parameter))
+        elif gate_name in {"RX", "RY", "RZ"}:
+            (GATE_QULACS[gate_name])(target_circuit, gate.target[0], -1. * gate.parameter)
+        elif gate_name in {"CRX", "CRY", "CRZ"}:
+            mat_gate = qulacs.gate.to_matrix_gate(GATE_QULACS[gate_name](gate.target[0], -1. * gate.parameter))
             for c in gate.control:
                 mat_gate.add_control_qubit(c, 1)
             target_circuit.add_gate(mat_gate)
-        elif gate.name in {"SWAP"}:
-            (GATE_QULACS[gate.name])(target_circuit, gate.target[0], gate.target[1])
-        elif gate.name in {"CSWAP"}:
-            mat_gate = qulacs.gate.to_matrix_gate(GATE_QULACS[gate.name](gate.target[0], gate.target[1]))
+        elif gate_name in {"SWAP"}:
+            (GATE_QULACS[gate_name])(target_circuit, gate.target[0], gate.target[1])
+        elif gate_name in {"CSWAP"}:
+            mat_gate = qulacs.gate.to_matrix_gate(GATE_QULACS[gate_name](gate.target[0], gate.target[1]))
             for c in gate.control:
                 mat_gate.add_control_qubit(c, 1)
             target_circuit.add_gate(mat_gate)
-        elif gate.name in {"PHASE"}:
-            mat_gate = GATE_QULACS[gate.name](gate.target[0], [[1, 0], [0, exp(1j * gate.parameter)]])
+        elif gate_name in {"PHASE"}:
+            mat_gate = GATE_QULACS[gate_name](gate.target[0], [[1, 0], [0, exp(1j * gate.parameter)]])
             target_circuit.add_gate(mat_gate)
-        elif gate.name in {"CPHASE"}:
-            mat_gate = GATE_QULACS[gate.name](gate.target[0], [[1, 0], [0, exp(1j * gate.parameter)]])
+        elif gate_name in {"CPHASE"}:
+            mat_gate = GATE_QULACS[gate_name](gate.target[0], [[1, 0], [0, exp(1j * gate.parameter)]])
             for c in gate.control:
                 mat_gate.add_control_qubit(c, 1)
             target_circuit.add_gate(mat_gate)
-        elif gate.name in {"XX"}:
+        elif gate_name in {"XX"}:
             c = cos(gate.parameter/2)
             s = -1j * sin(gate.parameter/2)
-            mat_gate = GATE_QULACS[gate.name]([gate.target[0], gate.target[1]], [[c, 0, 0, s],
+            mat_gate = GATE_QULACS[gate_name]([gate.target[0], gate.target[1]], [[c, 0, 0, s],
                                                                                  [0, c, s, 0],
                                                                                  [0, s, c, 0],
                                                                                  [s, 0, 0, c]])
             target_circuit.add_gate(mat_gate)
-        elif gate.name in {"CNOT"}:
-            (GATE_QULACS[gate.name])(target_circuit, gate.control[0], gate.target[0])
-        elif gate.name in {"MEASURE", "CMEASURE"}:
-            m_gate = (GATE_QULACS[gate.name])(gate.target[0], measure_count)
+        elif gate_name in {"CNOT"}:
+            (GATE_QULACS[gate_name])(target_circuit, gate.control[0], gate.target[0])
+        elif gate_name in {"MEASURE", "CMEASURE"}:
+            m_gate = (GATE_QULACS[gate_name])(gate.target[0], measure_count)
             target_circuit.add_gate(m_gate)
             if save_measurements:
                 measure_count += 1
         else:
-            raise ValueError(f"Gate '{gate.name}' not supported on backend qulacs")
+            raise ValueError(f"Gate '{gate_name}' not supported on backend qulacs")
 
         # Add noisy gates
         if noise_model and (gate.name in noise_model.noisy_gates):
